@@ -158,8 +158,30 @@ class LoopCut:
             return ("return", r[1])
         raise LoopCutError("unexpected prefix result")
 
+    CARRIED = []   # (function, variable, first iteration run) of every warm-up made for a loop-carried variable the given iterate lacks
+
     def body(self, state, it):
-        r = self._body(dict(state), it)
+        """One sweep from `state` at iteration index `it`.  If the body reads a variable that is assigned inside the loop and
+        that the given iterate does not define (a loop-carried local the obligation's author did not know of), the sweep is
+        preceded by the real sweep(s) at it-1 (.. down to 0) from the same iterate: every state the real loop can be in at
+        iteration `it` is the image of a sweep from some state, so the argument stays inductive, and an exit taken during the
+        warm-up is itself a real exit and is returned as such."""
+        try:
+            r = self._body(dict(state), it)
+        except NameError as e:   # UnboundLocalError included
+            name = getattr(e, "name", None)
+            if name is None:   # CPython does not fill .name for UnboundLocalError
+                import re
+                m = re.search(r"variable '([^']+)'", str(e))
+                name = m.group(1) if m else None
+            if name is None or name in state or name not in self.assigned_in_loop or not isinstance(it, int) or it <= 0:
+                raise
+            kind, st1 = self.body(state, it - 1)
+            LoopCut.CARRIED.append((self.func.__qualname__, name, it - 1))
+            del LoopCut.CARRIED[:-50]
+            if kind != "end":
+                return kind, st1
+            r = self._body(dict(st1), it)
         if isinstance(r, tuple) and len(r) == 2 and r[0] == "__return__":
             return "return", r[1]
         kind, st = r
